@@ -218,7 +218,7 @@ PROPS = {
         # pairs q/t, fully enumerated histories q/t
         'thread_extra': [('threadsrb', 40, 500, 0, 0, 2, 10, 2, 30), ('threadsq', 60, 600, 8, 0, 2, 8, 4, 40)],
         'units': [('regress', 0, 0)],
-        'owned': set(CLAUSE_OWNER) | {'NoDeadlock'},
+        'owned': set(CLAUSE_OWNER) | {'NoDeadlock', 'LockOrderAcyclic', 'LockOrderDocumented', 'LockOrderSameRole'},
         'nontrivial': lambda st, sc: any(x.get('s') == 'par' and (x.get('preempt') or x.get('rseed') is not None)
                                          for stp in sc['steps'] for x in stp.get('root', [])),
         'rule': 'root functions issuing 2-3 independent build_file/subbuild calls from cooperative threads: new / '
